@@ -24,8 +24,22 @@ def run_one(req):
     raise RuntimeError("history_run produced nothing: " + p.stderr[-1500:])
 
 
+PYPY_VERSIONS = ([2, 7], [3, 5], [3, 6], [3, 7], [3, 8], [3, 9], [3, 10])
+FLAGS = [0x43, 0x1000000, 0x100000 | 0x40, 0x200000 | 0x3, 0x400 | 0x800 | 0x43, 0x10000000 | 0x20, 0x2000 | 0x100, 0x400000]
+
+
 def rand_op(rnd, files, mbytes):
-    k = rnd.choice(["load", "load", "disasm", "disasm", "disasm", "opcode", "stdapi", "mdumps", "mloads"])
+    k = rnd.choice(["load", "load", "disasm", "disasm", "disasm", "opcode", "stdapi", "mdumps", "mloads", "stdfns", "stdfns", "colines", "stackeffects", "sysinfo2magic", "prettyflags"])
+    if k in ("stdfns", "colines"):
+        return {"k": k, "file": rnd.choice(files)}
+    if k == "stackeffects":
+        v = rnd.choice(VERSIONS)
+        return {"k": k, "version": v, "pypy": rnd.random() < 0.35 and v in PYPY_VERSIONS}
+    if k == "sysinfo2magic":
+        maj, mnr = rnd.choice([(2, 7), (3, 5), (3, 5), (3, 6), (3, 7), (3, 8), (3, 10), (3, 12)])
+        return {"k": k, "info": [maj, mnr, rnd.randrange(0, 6), "final", 0]}
+    if k == "prettyflags":
+        return {"k": k, "flags": rnd.choice(FLAGS), "pypy": rnd.random() < 0.4}
     if k == "load":
         return {"k": "load", "file": rnd.choice(files)}
     if k == "disasm":
@@ -41,9 +55,42 @@ def rand_op(rnd, files, mbytes):
     return {"k": "mloads", "bytes": rnd.choice(mbytes)}
 
 
+def sibling(rnd, probe, files):
+    """an operation related to the probe: same version in the other variant, the same file through another entry point, the same source
+    compiled for another version, the same release series, the same flags for the other variant - what a memo keyed too coarsely confuses"""
+    k = probe["k"]
+    o = dict(probe)
+    if k in ("opcode", "stdapi", "stackeffects"):
+        if probe["version"] in PYPY_VERSIONS:
+            o["pypy"] = not probe.get("pypy")
+        o["k"] = rnd.choice(["opcode", "stdapi", "stackeffects"])
+        return o
+    if k in ("load", "disasm", "stdfns", "colines"):
+        f = probe["file"]
+        if rnd.random() < 0.5:
+            base = os.path.basename(f).split(".")[0]
+            same_src = [g for g in files if g != f and os.path.basename(g).split(".")[0] == base]
+            if same_src:
+                f = rnd.choice(same_src)
+        kk = rnd.choice(["load", "disasm", "stdfns", "colines"])
+        o = {"k": kk, "file": f}
+        if kk == "disasm":
+            o["fmt"] = rnd.choice(FORMATS)
+        return o
+    if k == "sysinfo2magic":
+        o["info"] = list(probe["info"]); o["info"][2] = rnd.randrange(0, 6)
+        return o
+    if k == "prettyflags":
+        o["pypy"] = not probe.get("pypy")
+        return o
+    return o
+
+
 def run(r):
     r.cov["rule"] = ("theorem: all finite operation sequences (frame argument over the regenerated inventory of shared mutable state); execution: random sequences of 1-40 public "
-                     "operations (load_module, disassemble_file in six formats, get_opcode, make_std_api, marsh dumps/loads over files of all versions) in one process, then a probe, "
+                     "operations (load_module, disassemble_file in six formats, get_opcode, make_std_api, the std-style functions and co_lines() on every code object of a file, stack effects of a whole table, "
+                     "sysinfo2magic, pretty_flags, marsh dumps/loads over files of all versions; 40% of a history are operations related to the probe: other variant of its version, same file "
+                     "through another entry point, same source compiled for another version) in one process, then a probe, "
                      "compared with the same probe as the first call of a fresh process and with its own repetition; every module-level container and mutable default of xdis.* is "
                      "digested before and after; non-trivial = history of at least 3 operations; distinct by (history, probe)")
     broken = r.generate("mutstate")
@@ -60,8 +107,8 @@ def run(r):
         seqs = []
         for i in range(160 if quick else 1600):
             n = rnd.choice([1, 2, 3, 5, 8, 13, 25, 40] if not quick else [1, 3, 5, 8, 15, 25])
-            ops = [rand_op(rnd, files, mbytes) for _ in range(n)]
             probe = rand_op(rnd, files, mbytes)
+            ops = [sibling(rnd, probe, files) if rnd.random() < 0.4 else rand_op(rnd, files, mbytes) for _ in range(n)]
             if i % 5 == 0 and ops:
                 probe = dict(rnd.choice(ops))      # repeat something the history already did
             seqs.append({"ops": ops, "probe": probe})
